@@ -343,3 +343,99 @@ func unionOf(ts []*Term) *Term {
 	}
 	return out
 }
+
+// TrivialWrapper tells whether f is straight-line code that only forwards to one call and returns
+// that call's results unchanged (`func (t *T) ToX(k K) ([]byte, error) { return t.Encode(k, x.Encode) }`):
+// such functions are spliced into their callers' paths, so a rule sees the same terms whether a
+// caller goes through the wrapper or calls the wrapped function directly.
+func TrivialWrapper(f *ssa.Function) bool {
+	if f == nil || len(f.Blocks) != 1 || f.Synthetic != "" || f.Parent() != nil || f.Recover != nil {
+		return false
+	}
+	ins := f.Blocks[0].Instrs
+	ret, ok := ins[len(ins)-1].(*ssa.Return)
+	if !ok || len(ret.Results) == 0 {
+		return false
+	}
+	var last *ssa.Call
+	for _, in := range ins {
+		switch in := in.(type) {
+		case *ssa.Call:
+			last = in
+		case *ssa.Defer, *ssa.Go, *ssa.Store, *ssa.MapUpdate, *ssa.Send, *ssa.Panic, *ssa.MakeClosure:
+			return false
+		}
+	}
+	if last == nil {
+		return false
+	}
+	if len(ret.Results) == 1 {
+		return ret.Results[0] == ssa.Value(last)
+	}
+	for i, r := range ret.Results {
+		e, ok := r.(*ssa.Extract)
+		if !ok || e.Tuple != ssa.Value(last) || e.Index != i {
+			return false
+		}
+	}
+	return true
+}
+
+// Raw is a leaf that renders as the given text (used to build expected terms).
+func Raw(s string) *Term { return &Term{Op: "param", Name: s} }
+
+// WrapperBody gives, for a function that callers see through (Inlineable and TrivialWrapper),
+// the term of its result in terms of its parameters, with nested wrappers expanded.
+func WrapperBody(f *ssa.Function, depth int) *Term {
+	if f == nil || !TrivialWrapper(f) || Inlineable == nil || !Inlineable(f) || depth > MaxInlineDepth {
+		return nil
+	}
+	ins := f.Blocks[0].Instrs
+	ret := ins[len(ins)-1].(*ssa.Return)
+	var v ssa.Value = ret.Results[0]
+	if e, ok := v.(*ssa.Extract); ok {
+		v = e.Tuple
+	}
+	return expandWrappers(DetachedTerm(f, v), depth+1)
+}
+
+func expandWrappers(t *Term, depth int) *Term {
+	if t == nil {
+		return nil
+	}
+	args := make([]*Term, len(t.Args))
+	changed := false
+	for i, a := range t.Args {
+		args[i] = expandWrappers(a, depth)
+		changed = changed || args[i] != a
+	}
+	n := t
+	if changed {
+		n = simplify(&Term{Op: t.Op, Name: t.Name, Args: args, Val: t.Val, Bind: t.Bind})
+	}
+	if n.Op == "call" {
+		if c, ok := n.Val.(*ssa.Call); ok {
+			if g := StaticCallee(c); g != nil {
+				if body := WrapperBody(g, depth); body != nil {
+					return body.Subst(BindArgs(g, n))
+				}
+			}
+		}
+	}
+	return n
+}
+
+// CallString renders a call of f with the given argument renderings the way a caller's path shows
+// it: calls to trivial wrappers appear as the call they forward to.
+func CallString(f *ssa.Function, name string, args ...string) string {
+	if body := WrapperBody(f, 0); body != nil {
+		sub := map[string]*Term{}
+		for i, p := range f.Params {
+			if i < len(args) {
+				sub[paramName(f, p)] = Raw(args[i])
+			}
+		}
+		return body.Subst(sub).String()
+	}
+	return "call[" + name + "](" + strings.Join(args, ",") + ")"
+}
